@@ -41,6 +41,25 @@ def run(rep, prog, tier):
     r10(rep, prog)
     r11(rep, prog)
     r12(rep, prog)
+    r13(rep, prog)
+
+
+def r13(rep, prog):
+    """the list of managed files is refreshed when the writer lock is taken"""
+    from ._managed import managed_list_readers
+    R = "C10-R13"
+    rep.rule(R, "the managed list is refreshed under the writer lock: ManagedDirectory keeps the list of managed files in memory and rewrites `.managed.json` from that copy (register_file_as_managed, garbage_collect). The copy is only authoritative while its owner holds the writer lock: another Index handle (or process) may have registered files in between. So Index::writer_with_options, after it acquired INDEX_WRITER_LOCK and before it builds the IndexWriter, must read `.managed.json` back (a call that reaches Directory::atomic_read(MANAGED_FILEPATH)); otherwise the first file the new writer registers overwrites the persisted list with a stale one, and the files of the other handle's segments are never collected")
+    base, readers = managed_list_readers(prog)
+    rep.floor(R, "functions that read .managed.json back", len(base), 1)
+    fid = "tantivy::index::index::Index::writer_with_options"
+    b = get_body(rep, prog, R, fid)
+    if b is None:
+        return
+    ACQ = prog.names(r"Directory::acquire_lock$")
+    ok1 = rule_precede(rep, prog, R, fid, readers, {IW + "new"} if "IW" in globals() else set(prog.names(r"^tantivy::indexer::index_writer::IndexWriter::<D>::new$")),
+                       "a re-read of .managed.json", "IndexWriter::new", a_ok=True, key="writer_with_options re-reads .managed.json before it builds the writer")
+    if ok1:
+        rule_precede(rep, prog, R, fid, ACQ, readers, "acquire_lock(INDEX_WRITER_LOCK)", "the re-read of .managed.json", a_ok=True, key="the re-read happens under the writer lock")
 
 
 def r12(rep, prog):
